@@ -141,7 +141,7 @@ static void part_b(Ctx& ctx, uint64_t N, const CpuCfg& cfg, bool thorough) {
   };
   for (uint64_t k : ks)
     for (uint64_t rs = 0; rs <= 4; ++rs)
-      for (int ds = 0; ds < 2; ++ds) {
+      for (int ds = 0; ds < 3; ++ds) {  // 62-bit probes, digit-boundary values, structured limbs (all zero / multiples of 2^32 / probes)
         for (uint64_t as = 0; as <= 4; ++as) {
           for (uint64_t rsl : {N, N + 1, 2 * N + 3}) for (uint64_t asl : {N, N + 1, 2 * N + 3}) {
             NormShape s; s.N = N; s.k = k; s.rs = rs; s.as = as; s.rsl = rsl; s.asl = asl; s.variant = 0; s.dataset = ds;
